@@ -725,6 +725,15 @@ pub fn run_c06(case: &Case) -> Outcome {
     };
     // ---- check the steps
     let mut tables = events::Tables::new(m, 20_000);
+    // literals created for a predicate are written to the proof as that predicate, so the definitions
+    // b <-> p are axioms of the proof: tagged inferences are then judged over all assignments that
+    // satisfy the definitions (the models are small)
+    let has_defs = m.cons.iter().any(|c| matches!(c.0, Con::LitDef(..)));
+    let def_assignments: Vec<Vec<i64>> = if has_defs {
+        m.all_assignments().into_iter().filter(|a| m.cons.iter().all(|c| !matches!(c.0, Con::LitDef(..)) || holds_r(c, a))).collect()
+    } else {
+        vec![]
+    };
     let mut cur_sols: BTreeSet<Vec<i64>> = sols.clone(); // solutions that also satisfy the cuts so far
     let mut clauses: Vec<(u64, Vec<MPred>)> = vec![];
     let mut pending_infs: Vec<(Vec<MPred>, Option<MPred>)> = vec![];
@@ -761,7 +770,15 @@ pub fn run_c06(case: &Case) -> Outcome {
                             out.fail("inference-unknown-tag", format!("step {id} is tagged c:{t} but only {} constraints were posted", m.cons.len()));
                             return out;
                         }
-                        match tables.counterexample(ci, &prem, conc.as_ref()) {
+                        let judged = if has_defs {
+                            Ok(def_assignments
+                                .iter()
+                                .find(|a| holds_r(&m.cons[ci], a) && prem.iter().all(|p| p.holds(a)) && conc.map_or(true, |c| !c.holds(a)))
+                                .cloned())
+                        } else {
+                            tables.counterexample(ci, &prem, conc.as_ref())
+                        };
+                        match judged {
                             Err(()) => out.count("inference_steps_unchecked_scope", 1),
                             Ok(None) => {}
                             Ok(Some(a)) => {
